@@ -7,6 +7,7 @@ import (
 
 	"dawgsverif/areas/cachearea"
 	"dawgsverif/areas/entityarea"
+	"dawgsverif/areas/idsetarea"
 )
 
 type cmd func(args []string)
@@ -14,6 +15,7 @@ type cmd func(args []string)
 var areas = map[string]map[string]cmd{
 	"cache":  {"replay": cachearea.Replay, "conc": cachearea.Conc},
 	"entity": {"replay": entityarea.Replay},
+	"idset":  {"replay": idsetarea.Replay, "conc": idsetarea.Conc, "abba": idsetarea.Abba, "toggle": idsetarea.Toggle},
 }
 
 func main() {
